@@ -147,8 +147,8 @@ package drpcmanager
 //@   requires m.tr != nil
 //@   modifies *
 //@   loop 1 invariant [m] m == m0
-//@   assumes "values received on m.streams are the ones newStream sent (non-nil context and stream with the manager's writer); m.tr is never reassigned after construction"
-//@   site (*Manager).manageStream assume [chan-content] arg1 != nil && arg2 != nil && arg2.wr != nil && arg2.wr.w != nil && arg0.tr != nil
+//@   assumes "values received on m.streams are the ones newStream sent (non-nil context and stream with the manager's writer)"
+//@   site (*Manager).manageStream assume [chan-content] arg1 != nil && arg2 != nil && arg2.wr != nil && arg2.wr.w != nil
 
 // manageStream, per select branch (0: manager terminated, 1: stream finished, 2: context done):
 // a terminated manager or a cancelled context always cancels the stream; in soft-cancel mode the
